@@ -24,7 +24,7 @@ for c, (b, log) in zip(cfgs, res):
             val = rnd.getrandbits(60) if mode < .6 else ((1 << 60) - 1 if mode < .8 else 0)
             case.append({'op': 'P', 'ev': rnd.randrange(nev), 'payload': rnd.randrange(100), 'val': val})
         if rnd.random() < .3: case.append({'op': 'T'})
-        tr = cases.normalise(s.run(cases.to_line(case)), s.idmap)
+        tr = cases.normalise(s.run('R ' + cases.to_line(case)), s.idmap)[1:]
         md = cases.run_model(sp, case, 'back' if c <= 4 else 'mp11')
         if tr != md.trace:
             bad += 1
